@@ -149,6 +149,9 @@ func (d dissecting) Dissect(b *bufio.Reader, reader api.TcpReader) error {
 			if err == io.EOF || err == io.ErrUnexpectedEOF {
 				break
 			} else if err != nil {
+				if !moreInput(b) {
+					break
+				}
 				continue
 			}
 			reader.GetParent().SetProtocol(&http11protocol)
@@ -158,6 +161,9 @@ func (d dissecting) Dissect(b *bufio.Reader, reader api.TcpReader) error {
 			if err == io.EOF || err == io.ErrUnexpectedEOF {
 				break
 			} else if err != nil {
+				if !moreInput(b) {
+					break
+				}
 				continue
 			}
 			reader.GetParent().SetProtocol(&http11protocol)
@@ -189,6 +195,9 @@ func (d dissecting) Dissect(b *bufio.Reader, reader api.TcpReader) error {
 			if err == io.EOF || err == io.ErrUnexpectedEOF {
 				break
 			} else if err != nil {
+				if !moreInput(b) {
+					break
+				}
 				continue
 			}
 			reader.GetParent().SetProtocol(&http11protocol)
@@ -196,6 +205,14 @@ func (d dissecting) Dissect(b *bufio.Reader, reader api.TcpReader) error {
 	}
 
 	return nil
+}
+
+// moreInput reports whether the half connection can still deliver bytes. After an error that is
+// not an end of stream the loop goes on with the next message only if it can: a reader that fails
+// on every read would otherwise be retried forever.
+func moreInput(b *bufio.Reader) bool {
+	_, err := b.Peek(1)
+	return err == nil
 }
 
 func (d dissecting) Analyze(item *api.OutputChannelItem, resolvedSource *api.Resolution, resolvedDestination *api.Resolution) *api.Entry {
